@@ -1513,3 +1513,64 @@ def main(tier, seed, replay=None):
     if not all(res.values()):
         raise common.MachineryError('trace spec accepted a corrupted trace: %s' % res)
     return out.finish()
+
+
+# --------------------------------------------------------------------------- known-findings enumeration (offline tool)
+def enumerate_known(natt=3, closer='TRUE', sync='FALSE', workers=8, max_rounds=40, timeout=1500, small=True):
+    """Which clauses can the AS-IS design spec (switches measured on the tree) violate, and in which variant
+    (T = no open_link of attempt >= 2 had begun, R = it had)?  Runs TLC repeatedly on MC_LifecycleEnum, each time
+    excluding what was already seen, until nothing new is reachable.  python -m harness.props.C02 prints the list."""
+    import os
+    import shutil
+    _init()
+    defects = detect_defects()
+    seen = []
+    scratch = tlc.scratch_dir('c02enum-')
+    try:
+        while len(seen) < max_rounds:
+            base = 'MC_Lifecycle_quick.cfg' if small else 'MC_Lifecycle_asis.cfg'
+            txt = open(os.path.join(tlc.SPEC_DIR, base)).read()
+            txt = re.sub(r'(?m)^  Defects .*$', '  Defects = %s' % _tla_set(defects), txt)
+            for k, v in (('NAtt', natt), ('Closer', closer), ('UseSync', sync), ('MaxFaults', 2 if natt >= 3 else 1)):
+                txt = re.sub(r'(?m)^  %s = .*$' % k, '  %s = %s' % (k, v), txt)
+            txt = re.sub(r'(?m)^  FaultBy .*$', '  FaultBy = {"sender", "driver"}', txt)
+            lines = [ln for ln in txt.splitlines() if not ln.startswith('INVARIANT')]
+            i = lines.index('CHECK_DEADLOCK FALSE')
+            lines[i:i] = ['  Seen = %s' % _tla_set(seen), 'INVARIANT EnumInv', 'INVARIANT EnumQuiet']
+            p = os.path.join(scratch, 'enum.cfg')
+            with open(p, 'w') as f:
+                f.write('\n'.join(lines) + '\n')
+            r = tlc.run('MC_LifecycleEnum.tla', p, workers=workers, timeout=timeout)
+            if not r.violated:
+                return seen, r.distinct
+            last = r.error_trace[-1][1]
+            if r.violated == 'EnumInv':
+                key = '%s/%s' % (last['viol'], last['vwhen'])
+            else:
+                key = None
+                for cand in ('ThreadDied', 'Deadlock', 'SyncCallHangs', 'NotDisconnected'):
+                    for v in ('T', 'R'):
+                        if '%s/%s' % (cand, v) not in seen:
+                            pass
+                # the quiet clause is not a state variable: recompute it from the rule order (cheap: try the candidates)
+                key = 'QUIET?'
+            if key == 'QUIET?':
+                # ask TLC which clause: add candidates one by one
+                for cand in ('ThreadDied', 'Deadlock', 'SyncCallHangs', 'NotDisconnected'):
+                    k2 = '%s/%s' % (cand, 'R' if last['g']['next'] >= 3 else 'T')
+                    if k2 not in seen:
+                        key = k2
+                        break
+            if key in seen or key == 'QUIET?':
+                raise common.MachineryError('enumeration does not progress at %s' % key)
+            seen.append(key)
+        return seen, 0
+    finally:
+        shutil.rmtree(scratch, ignore_errors=True)
+
+
+if __name__ == '__main__':
+    import sys as _sys
+    for (na, cl, sy) in ((2, 'TRUE', 'FALSE'), (2, 'TRUE', 'TRUE'), (3, 'FALSE', 'FALSE')):
+        s_, n_ = enumerate_known(natt=na, closer=cl, sync=sy)
+        print('NAtt=%d Closer=%s UseSync=%s: %s (final run %d states)' % (na, cl, sy, sorted(s_), n_))
